@@ -132,6 +132,9 @@ def tagflow(cfg, focus):
                     pp = out[pn][j]
                     conds.append(pp * pp == p0 * p0 * sv(SP[0], 0) * sv(SP[1], 0))
                     conds.append(pp > 0)
+            # the parameter set has exactly one entry per class (no phantom entries that no tag can address)
+            shapes = [len(np.asarray(out[NAMES[t][k]])) == len(calc.tags[t]) for t in calc.__taglist__ for k in (0, 1)]
+            ob('one-entry-per-class', all(shapes))
             ob('data-flow', core.And(*conds) if sym else all(bool(c) if not isinstance(c, (bool, np.bool_)) else c for c in _conc(conds)))
             # verbose report
             exp_missing = {}
@@ -197,10 +200,10 @@ def sections(tier):
     S = run.Section
     secs = []
     bud = 175 if tier == 'quick' else 1200
-    cfgs = ['square-1', 'rect2-1'] if tier == 'quick' else ['square-1', 'rect2-1', 'sc-1', 'square-2', 'rumple2d-1']
+    cfgs = ['square-1', 'rect2-1', 'rumple2d-1'] if tier == 'quick' else ['square-1', 'rect2-1', 'sc-1', 'square-2', 'rumple2d-1']
     for cfg in cfgs:
         ncl = len(classes(hist.get_calc(cfg)))
-        step = 3 if tier == 'quick' else 1
+        step = (3 if cfg != 'rumple2d-1' else 5) if tier == 'quick' else 1
         for focus in range(0, ncl, step):
             secs.append(S('tags:%s:%d' % (cfg, focus), tagflow(cfg, focus), budget_s=bud, replayer='tags', config=cfg, maxpaths=4000, timeout_ms=20000))
         secs.append(S('unique:' + cfg, uniqueness(cfg), budget_s=bud, replayer='unique', config=cfg, maxpaths=2))
@@ -230,7 +233,7 @@ def main():
         ],
         explanation='Real tags2preene/makeLIMBpreene executed on symbolic data with solver-split tag choices; data flow, defaults, LIMB values and '
                     'the verbose report (missing / duplicates / unrecognised) decided per path, including a second verbose call.',
-        bounds='square-1, rect2-1 (quick) + sc-1, square-2, rumple2d-1 (thorough); interstitial tag dictionaries on X1, X2, X3')
+        bounds='square-1, rect2-1, rumple2d-1 (two sites in one Wyckoff set) (quick) + sc-1, square-2 (thorough); interstitial tag dictionaries on X1, X2, X3')
     chk.run(sections(chk.tier))
     chk.finish()
 
